@@ -31,6 +31,8 @@ REQUIRED = ["DaeVerif.C03.Props." + n for n in (
     "dae0peer_accepts_exactly_the_handed_over_frames", "dae0peer_assigns_listener_of_protocol_and_family",
     "dae_reply_returns_where_the_flow_came_from", "dae0_ingress_parse_path_independent", "reverse_hooks_only_observe",
     "udp_relay_record_is_at_most_cache_ttl_old", "tcp_relay_record_is_the_kernel_record",
+    "lan_new_tcp_connection_reaches_relay_with_its_decision",
+    "noninitial_fragments_pass_on_every_hook", "truncated_frames", "janitor_pressure_mode",
     # composition with C02 (route() over the installed bytes) and C01 (first matching rule): Compose.lean
     "lan_new_tcp_connection_follows_userspace", "lan_new_tcp_connection_follows_first_match",
     "lan_new_udp_flow_follows_first_match",
@@ -40,7 +42,7 @@ REQUIRED = ["DaeVerif.C03.Props." + n for n in (
     "first_match_decision_is_sticky_wan_tcp", "first_match_decision_is_sticky_wan_udp",
 )]
 
-GO_ANSWERED = ("connkey", "hoexp")
+GO_ANSWERED = ("connkey", "hoexp", "press")
 
 
 def streams_for(ctx):
@@ -232,7 +234,7 @@ def run(ctx):
         if seen_kinds[kind] <= 4:  # a handful of replays per kind of disagreement is enough
             pending.append((prio, len(pending), what, replay, key))
 
-    ctx.prove(["DaeVerif.C03.Props", "DaeVerif.C03.Compose", "DaeVerif.C03.Consumer", "DaeVerif.C03.Dae0Props"], ["DaeVerif.C03.Props"], ["DaeVerif/C03/*.lean"], extra_targets=["c03drv"])
+    ctx.prove(["DaeVerif.C03.Props", "DaeVerif.C03.Compose", "DaeVerif.C03.Consumer", "DaeVerif.C03.Dae0Props", "DaeVerif.C03.EdgeProps", "DaeVerif.C03.Pressure"], ["DaeVerif.C03.Props"], ["DaeVerif/C03/*.lean"], extra_targets=["c03drv"])
     ctx.required_theorems(REQUIRED)
 
     # ---- native build of /repo's CURRENT tproxy.c (unmodified; #included by the driver)
@@ -377,6 +379,7 @@ def run(ctx):
                     "use": "the record the control plane works with (head of handleConn / UDP ingress task with its per-endpoint routing cache, regenerated from source, on the bytes the kernel program stored) differs from the model's consumer",
                     "peer": "tproxy_dae0peer_ingress (the consumer of cb[] on dae's veth peer) differs from the proved model",
                     "d0": "tproxy_dae0_ingress (the consumer of redirect_track: replies of dae to a captured client) differs from the proved model",
+                    "press": "updateConnStateJanitorPressure (when the conn-state janitor halves its timeouts) differs from the model",
                     "hoexp": "routingHandoffExpired differs from the model"}.get(kind, "implementation differs from the proved model")
             queue(2, f"{what} at {n}:{ln}: impl `{im[:300]}` model `{mo[:300]}`",
                        {"stream": n, "line": ln, "op": op[:6000], "impl": im[:6000], "model": mo[:6000],
@@ -550,6 +553,39 @@ def run(ctx):
     ctx.cov["handover_consumers"] = {"dae0peer_ingress": n_peer, "dae0peer_accepted": n_peer_ok, "dae0_ingress": n_d0,
                                      "dae0_ingress_returned_to_origin": n_d0_redirect, "relay_record_lookups": n_use,
                                      "relay_record_from_cache": n_use_cached, "relay_record_not_compared": n_use_skipped}
+    # ---- generator floors: an input class the check relies on must really have been exercised (below a floor the run is
+    # not an OK but a harness failure, exit 2).  Quick-tier numbers; thorough is ~12x larger.
+    if "VERIF_C03_SCEN" not in os.environ and not pending and not ctx.proof_failures:
+        d, rp, hc = stats["counters"], rstats["counters"], ctx.cov["handover_consumers"]
+        floors = [
+            ("frames through li", verdicts["li:v=0"] + verdicts["li:v=2"] + verdicts["li:v=7"], 3000),
+            ("frames through we", verdicts["we:v=0"] + verdicts["we:v=2"] + verdicts["we:v=7"], 5000),
+            ("li redirected", verdicts["li:v=7"], 500), ("li dropped", verdicts["li:v=2"], 300),
+            ("we redirected", verdicts["we:v=7"], 500), ("we dropped", verdicts["we:v=2"], 300),
+            ("wi frames", verdicts["wi:v=3"], 3000), ("le frames", verdicts["le:v=3"], 800),
+            ("le locally generated (NDP branch)", d.get("le.iif0", 0), 100),
+            ("programs without fallback", d.get("prog.no-fallback", 0), 50),
+            ("conditions on a missing LPM slot", d.get("rule.lpm-slot-missing", 0), 50),
+            ("socket-table exact hits offered", d.get("socket.exact", 0), 200),
+            ("socket-table near misses", sum(d.get("socket." + k, 0) for k in ("addr-swapped", "port-swapped", "other-family", "other-netns", "other-proto")), 200),
+            ("rule swaps", d.get("op.rule-swap", 0), 800), ("connectivity flips", d.get("op.alive-flip", 0), 800),
+            ("pull failures", d.get("path.pullfail", 0), 1500), ("short linear areas", d.get("path.lin.short", 0), 1500),
+            ("twin frames", n_twin_frames, 2000), ("parse ops", n_parse, 3000),
+            ("retrieve found", rp.get("retr.found", 0), 1000), ("retrieve notfound", rp.get("retr.notfound", 0), 1000),
+            ("janitor rounds", n_jan, 800), ("janitor deletions", n_jan_deleted, 800),
+            ("aggressive janitor rounds", rp.get("jan.aggressive", 0), 200),
+            ("dae0peer accepted", hc["dae0peer_accepted"], 400), ("dae0peer shot", hc["dae0peer_ingress"] - hc["dae0peer_accepted"], 400),
+            ("dae0 replies returned", hc["dae0_ingress_returned_to_origin"], 300),
+            ("relay record lookups", hc["relay_record_lookups"], 2500), ("relay records from the cache", hc["relay_record_from_cache"], 100),
+            ("lookups for another destination", d.get("use.other-dst", 0), 200),
+            ("scope-sensitive scenarios", d.get("scenario.scope-sensitive", 0), 30),
+            ("MAC-packer witness frames", len(ctx.cov.get("witnesses", {}).get("mac-packers", "")), 21),
+        ]
+        low = [f"{name}: {got} < {need}" for name, got, need in floors if got < need]
+        ctx.cov["generator_floors"] = {name: [got, need] for name, got, need in floors}
+        if low:
+            ctx.say("HARNESS-FAILED generator floors not reached (the run did not exercise what the check relies on): " + "; ".join(low))
+            return 2
     ctx.assumptions = [
         "frames, rule programs, connectivity states, clocks and interleavings are generated (seeded): what was not generated was not compared",
         "the parse-path choice (linear length, bpf_skb_pull_data result), socket cookie and the one-entry socket table are inputs of a frame (oracles)",
